@@ -32,15 +32,24 @@
                                                                 of the code before fixes/C13/01, as a theorem)
    a suspended client gets no read notifications until        suspended_gets_no_onRead
      it is resumed                                            suspended_state_gets_no_onRead
+     - also when the read notification was already            two_clients_suspended_gets_no_onRead
+       collected by the poll round in which ANOTHER           two_clients_suspended_state_gets_no_onRead
+       client's callback suspends it (two clients of          cached_events_within_interest (the cache of
+       one Server, Socket::Poll's cache of collected            collected events never holds an event kind its
+       events: step2 / exec2, ServerWrite2Model.v)              client is not registered for NOW)
+                                                              one_client_model_embeds (step2 restricted to
+                                                                client A is step)
    interest set (Server.cpp:348,460,497,505)                  interest_invariant, unregistered_has_no_backlog
    model = reference object of the property                   model_refines_spec (ServerWriteRefine.v)
+                                                              two_client_model_refines_spec (ServerWrite2Refine.v)
 
    Not proved here (assumed / validated by correspondence only): that the kernel delivers the bytes it
    accepted to the peer in order (stream socket semantics: [wire] is a FIFO in the model); that the
    model mirrors Server.cpp (differential check against the ASan/UBSan build under the simulated
    kernel, checks/C13.py). *)
 From Coq Require Import ZArith List Bool.
-From ServerWrite Require Import ServerWriteSpec ServerWriteModel ServerWriteProofs ServerWriteTheorems ServerWriteRefine.
+From ServerWrite Require Import ServerWriteSpec ServerWriteModel ServerWriteProofs ServerWriteTheorems ServerWriteRefine
+  ServerWrite2Spec ServerWrite2Model ServerWrite2Proofs ServerWrite2Refine.
 Import ListNotations.
 Local Open Scope Z_scope.
 
@@ -142,6 +151,43 @@ Theorem suspended_state_gets_no_onRead : forall ops x,
 Proof. exact suspended_state_lemma. Qed.
 Print Assumptions suspended_state_gets_no_onRead.
 
+(* Two clients A (false) and B (true) of one Server.  [exec2 init2 ops] runs a history of
+     On c x          any operation of the one-client vocabulary on client c (a callback of A calling
+                     B.suspend() is the step On true Suspend between two Deliver steps)
+     Collect f n0 n1 one epoll_wait reporting readiness n0 / n1 for A / B (any subset, either order)
+     Deliver o       one poll() call handing out the oldest collected event + its dispatch
+     Sweep           one iteration of the closing-clients pass
+   ops_of c ops = the one-client operations the history issued on client c. *)
+Theorem two_clients_suspended_gets_no_onRead : forall ops x c,
+  let m := fst (exec2 init2 ops) in
+  let r := snd (step2 m x) in
+  susp_of_ops (ops_of c ops) false = true -> o2_c r = Some c -> ~ In OnRead (o_cbs (o2_out r)).
+Proof. exact suspended2_lemma. Qed.
+Print Assumptions two_clients_suspended_gets_no_onRead.
+
+Theorem two_clients_suspended_state_gets_no_onRead : forall ops x c,
+  let m := fst (exec2 init2 ops) in
+  let r := snd (step2 m x) in
+  suspended (get2 m c) = true -> o2_c r = Some c -> ~ In OnRead (o_cbs (o2_out r)).
+Proof. exact suspended2_state_lemma. Qed.
+Print Assumptions two_clients_suspended_state_gets_no_onRead.
+
+Theorem cached_events_within_interest : forall ops e,
+  let m := fst (exec2 init2 ops) in
+  In e (sel m) ->
+  let s := get2 m (e_c e) in
+  registered s = true /\ removed s = false /\
+  (e_r e = true -> int_r s = true /\ suspended s = false) /\
+  (e_w e = true -> int_w s = true /\ backlog s <> []).
+Proof. exact cache_within_interest_lemma. Qed.
+Print Assumptions cached_events_within_interest.
+
+Theorem one_client_model_embeds : forall ops,
+  cl0 (fst (exec2 init2 (map (On false) ops))) = fst (exec init ops) /\
+  map o2_out (snd (exec2 init2 (map (On false) ops))) = snd (exec init ops).
+Proof. exact embedding_init_lemma. Qed.
+Print Assumptions one_client_model_embeds.
+
 (* ---- interest set ---------------------------------------------------------------------------------- *)
 
 Theorem interest_invariant : forall ops,
@@ -163,14 +209,19 @@ Theorem model_refines_spec : forall ops,
 Proof. exact refinement_lemma. Qed.
 Print Assumptions model_refines_spec.
 
+Theorem two_client_model_refines_spec : forall ops,
+  Forall2 claim_met2 (snd (spec_exec2 spec_init2 ops)) (snd (exec2 init2 ops)).
+Proof. exact refinement2_lemma. Qed.
+Print Assumptions two_client_model_refines_spec.
+
 (* ---- non-vacuity ------------------------------------------------------------------------------------ *)
 
 (* a history with a partial send, an append behind the backlog, a would-block, a suspended phase with a
    readable+writable report, a drain, and peer reads *)
 Definition ex_ops : list op :=
   [Write [1; 2; 3; 4; 5] (Sent 2); Write [6; 7] Full; PeerWrite [9]; Suspend;
-   Dispatch (mknative true true false) WouldBlock; Dispatch (mknative true true false) (Sent 1); PeerRead;
-   Resume; Dispatch (mknative true true false) (Sent 2); Dispatch (mknative true true false) Full; PeerRead;
+   Dispatch (mknative true true false false false) WouldBlock; Dispatch (mknative true true false false false) (Sent 1); PeerRead;
+   Resume; Dispatch (mknative true true false false false) (Sent 2); Dispatch (mknative true true false false false) Full; PeerRead;
    Write [8] Zero; Write [] WouldBlock].
 
 Example ex_hyps :
@@ -207,23 +258,56 @@ Example ex_writable_event :
   let s := fst (exec init (firstn 8 ex_ops)) in
   removed s = false /\ backlog s = [4; 5; 6; 7] /\
   send_result 4 (Sent 2) = RSent 2 /\
-  snd (step s (Dispatch (mknative true true false) (Sent 2))) =
+  snd (step s (Dispatch (mknative true true false false false) (Sent 2))) =
     mkout None 0 [OnRead] [4; 5] [(4, 2)] [] false false.
 Proof. vm_compute. repeat split. Qed.
 
 Example ex_drain :
   let s := fst (exec init (firstn 8 ex_ops)) in
-  let l := [Dispatch (mknative true true false) (Sent 1); PollReal (Sent 1); Dispatch (mknative false true true) (Sent 1);
+  let l := [Dispatch (mknative true true false false false) (Sent 1); PollReal (Sent 1); Dispatch (mknative false true true false false) (Sent 1);
             PollReal Full; PollReal Full] in
   forallb pushy l = true /\ zlen (backlog s) <= Z.of_nat (length l) /\
   backlog (fst (exec s l)) = [] /\ callbacks (snd (exec s l)) = [OnRead; OnRead; OnRead; OnWrite; OnRead].
 Proof. vm_compute. repeat split; congruence. Qed.
 
 Example ex_unregistered :
-  let s := fst (exec init [Write [1; 2] WouldBlock; Dispatch (mknative false true false) Error]) in
-  registered s = false /\ backlog s = [] /\ gave_up (snd (exec init [Write [1; 2] WouldBlock; Dispatch (mknative false true false) Error])) = true.
+  let s := fst (exec init [Write [1; 2] WouldBlock; Dispatch (mknative false true false false false) Error]) in
+  registered s = false /\ backlog s = [] /\ gave_up (snd (exec init [Write [1; 2] WouldBlock; Dispatch (mknative false true false false false) Error])) = true.
 Proof. vm_compute. repeat split. Qed.
 
 Example ex_refinement :
   snd (spec_exec spec_init ex_ops) = map Some (snd (exec init ex_ops)).
+Proof. vm_compute. reflexivity. Qed.
+
+(* two clients readable in ONE poll round; A is notified first and (its callback) suspends B: B's
+   collected read notification is revoked; after resume the next round notifies B.  Then B, suspended
+   with a backlog, is reported readable+writable: the backlog is sent, no onRead. *)
+Definition rd : native := mknative true false false false false.
+Definition rdwr : native := mknative true true false false false.
+Definition ex_ops2 : list op2 :=
+  [On false (PeerWrite [1]); On true (PeerWrite [2]);
+   Collect false (Some rd) (Some rd); Deliver Full; On true Suspend; Deliver Full;
+   On true Resume; Collect true (Some rd) (Some rd); Deliver Full; Deliver Full;
+   On true (Write [7; 8] WouldBlock); On true Suspend; Collect false None (Some rdwr); Deliver (Sent 1)].
+
+Example ex_two_clients :
+  map (fun r => (o2_c r, o_cbs (o2_out r), o2_idle r)) (snd (exec2 init2 ex_ops2)) =
+    [(Some false, [], false); (Some true, [], false);
+     (None, [], false); (Some false, [OnRead], false); (Some true, [], false); (None, [], true);
+     (Some true, [], false); (None, [], false); (Some true, [OnRead], false); (Some false, [OnRead], false);
+     (Some true, [], false); (Some true, [], false); (None, [], false); (Some true, [], false)] /\
+  sel (fst (exec2 init2 (firstn 3 ex_ops2))) = [mkentry false true false; mkentry true true false] /\
+  sel (fst (exec2 init2 (firstn 5 ex_ops2))) = [] /\
+  susp_of_ops (ops_of true (firstn 5 ex_ops2)) false = true /\
+  susp_of_ops (ops_of true (firstn 13 ex_ops2)) false = true /\
+  sel (fst (exec2 init2 (firstn 13 ex_ops2))) = [mkentry true false true] /\
+  o_tx (o2_out (snd (step2 (fst (exec2 init2 (firstn 13 ex_ops2))) (Deliver (Sent 1))))) = [7].
+Proof. vm_compute. repeat split. Qed.
+
+Example ex_refinement2 :
+  snd (spec_exec2 spec_init2 ex_ops2) = map Some (snd (exec2 init2 ex_ops2)).
+Proof. vm_compute. reflexivity. Qed.
+
+Example ex_embedding :
+  map o2_out (snd (exec2 init2 (map (On false) ex_ops))) = snd (exec init ex_ops).
 Proof. vm_compute. reflexivity. Qed.
